@@ -235,3 +235,143 @@ def verdict_sb(line):
     """`<result> # V=..`: accept + summary, or reject; error codes are information only"""
     r, _, v = line.partition(" # ")
     return verdict(r) + " # " + v
+
+
+# ------------------------------------------------------------------ builder histories (C10)
+U64 = 1 << 64
+MIN_COST_THRESHOLD = 6000000
+
+
+def make_pool(rng, env, n):
+    """small bundles that are valid on their own, with their truthful declared cost (execution + conditions)"""
+    pool = []
+    tries = 0
+    while len(pool) < n and tries < 6 * n:
+        tries += 1
+        r = rng.fork("pool%d" % tries)
+        b = synthetic(r, env, scen=r.choice(["single", "multi", "locks", "fees", "unknown", "announce", "ff"]))
+        if b["mut"] != "none" or not b["spends"]:
+            continue
+        b["flags"] = 0
+        b["token"] = spends_token(b["spends"])
+        pool.append(b)
+    outs = C.run_lines(C.VH(UNIT), ["bundle.truth c k0!%s" % b["token"] for b in pool])
+    good = []
+    for b, o in zip(pool, outs):
+        if o.isdigit():
+            b["truth"] = int(o)
+            good.append(b)
+    return good
+
+
+def bad_bundle(rng):
+    """a bundle whose reveal or solution does not parse"""
+    p = rng.bytes(32)
+    return {"token": "%s:%s:%d:%s:%s" % (p.hex(), (b"\x11" * 32).hex(), rng.below(1000), rng.choice(["ff", "ff01", "c0"]), "80"), "truth": 0,
+            "bad": True}
+
+
+def attempt_token(a, size="-"):
+    bt = ";".join("%s!%s" % (sig, tok) for sig, tok in a["bundles"]) if a["bundles"] else "-"
+    return "%d@%s@%s" % (a["cost"], size, bt)
+
+
+def history_line(op, build, h, sizes=None):
+    toks = []
+    for i, a in enumerate(h["attempts"]):
+        sz = "-"
+        if sizes is not None and i + 1 < len(sizes) and sizes[i + 1].isdigit():
+            sz = sizes[i + 1]
+        toks.append(attempt_token(a, sz))
+    init = sizes[0] if sizes else "3"
+    att = "/".join(toks) if toks else "-"
+    if op == "bundle.hist":
+        return "bundle.hist %s %s %d %d %s %s" % (build, h["kind"], h["cpb"], h["max"], init, att)
+    if op == "bundle.sizes":
+        return "bundle.sizes %s %d %d %s" % (build, h["cpb"], h["max"], att)
+    if op == "bundle.o10":
+        return "bundle.o10 %s %d %d %d %d %s" % (h["kind"], h["cpb"], h["max"], 1 if h["truthful"] else 0, 1 if h.get("check_sig") else 0, att)
+    raise KeyError(op)
+
+
+def parse_hist_costs(out):
+    """cost() after each step of a bundle.hist output line (None where absent)"""
+    res = []
+    for t in out.split(" "):
+        if t.startswith("F") or t == "P":
+            break
+        f = t.split(":")
+        c = f[-1]
+        res.append(int(c) if c.isdigit() else None)
+    return res
+
+
+def make_histories(rng, env, pool, n):
+    hs = []
+    for i in range(n):
+        r = rng.fork("hist%d" % i)
+        kind = r.choice(["c", "i"])
+        cpb = r.choice([12000, 12000, 12000, 1, 7, 1000000])
+        natt = 1 + r.below(8)
+        avail = list(pool)
+        r.shuffle(avail)
+        attempts = []
+        key = 0
+        for _ in range(natt):
+            nb = r.choice([1, 1, 1, 2, 3, 0])
+            bs = []
+            truth = 0
+            for _ in range(nb):
+                if r.chance(1, 25):
+                    b = bad_bundle(r)
+                elif avail:
+                    b = avail.pop()
+                else:
+                    break
+                key += 1
+                bs.append((r.choice(["k%d" % (key % 9), "k%d" % (key % 9), "-"]), b["token"]))
+                truth += b["truth"]
+            attempts.append({"bundles": bs, "truth": truth, "cost": truth, "decl": "T"})
+        hs.append({"kind": kind, "cpb": cpb, "max": 1 << 62, "attempts": attempts, "id": i})
+    # dry run with no effective limit: the cost() trajectory when everything is accepted
+    outs = C.run_lines(C.VH(UNIT), [history_line("bundle.hist", "r", h) for h in hs])
+    for h, o in zip(hs, outs):
+        r = rng.fork("lim%d" % h["id"])
+        traj = [c for c in parse_hist_costs(o) if c is not None]
+        h["dry"] = traj
+        k = r.below(8)
+        if not traj or k == 0:
+            h["max"] = r.choice([11000000000, 1 << 40])
+            h["maxkind"] = "roomy"
+        else:
+            j = r.below(len(traj))
+            base = traj[j]
+            h["max"], h["maxkind"] = r.choice([(base, "exact"), (base - 1, "exact-1"), (base + MIN_COST_THRESHOLD, "thr"),
+                                               (base + MIN_COST_THRESHOLD - 1, "thr-1"), (base + MIN_COST_THRESHOLD + 1, "thr+1"),
+                                               (traj[-1] + r.below(3 * MIN_COST_THRESHOLD), "tail"),
+                                               (MIN_COST_THRESHOLD + 19 + r.below(3), "tiny")])
+            h["max"] = max(0, h["max"])
+        # declared costs
+        h["overflow"] = False
+        h["truthful"] = True
+        for ai, a in enumerate(h["attempts"]):
+            d = r.below(24)
+            if d == 0:
+                a["cost"], a["decl"] = a["truth"] // 2, "S"
+            elif d == 1:
+                a["cost"], a["decl"] = 0, "S0"
+            elif d == 2:
+                a["cost"], a["decl"] = r.choice([1 << 63, (1 << 63) - 1, U64 - (1 << 41), 1 << 50]), "H"
+            elif d == 3 and ai < len(traj):
+                # land exactly on the limit (or one above) with this attempt, all earlier ones truthful
+                slack = h["max"] - traj[ai]
+                if slack >= 0 or a["truth"] + slack >= 0:
+                    a["cost"], a["decl"] = max(0, a["truth"] + slack + r.choice([0, 0, 1])), "L"
+            elif d == 4 and r.chance(1, 2):
+                cur = traj[ai - 1] if 0 < ai <= len(traj) else 20
+                a["cost"], a["decl"] = r.choice([U64 - 1, U64 - 20, U64 - 21, U64 - cur, U64 - cur - 1, U64 - cur + r.below(h["max"] + 2),
+                                                 U64 - cur + h["max"], U64 - cur + h["max"] + 1, U64 - 1 - r.below(1 << 20)]) % U64, "O"
+                h["overflow"] = True
+            if a["cost"] != a["truth"]:
+                h["truthful"] = False
+    return hs
